@@ -1,4 +1,5 @@
 import DepsDev.Model.Semver.Constraint
+import DepsDev.Model.Semver.Diff
 
 /-!
 # Ties between the hand-written semver model and the tables regenerated from the Go source
@@ -47,6 +48,10 @@ theorem ranks_ok : (pep440Dev, pep440Alpha, pep440Beta, pep440Prerelease, pep440
 operator map consists of `tOP` bytes, or is the single hyphen. -/
 theorem operator_keys_ok :
     operators.all (fun m => m.all (fun p => p.1 == [45] || p.1.all (fun c => byteTypeOf c.toNat == tOP))) = true := by decide +kernel
+
+/-- `Diff` constants used by the model of diff.go. -/
+theorem diffs_ok : diffs = [("Same", diffSame), ("DiffOther", diffOther), ("DiffMajor", diffMajor), ("DiffMinor", diffMinor),
+    ("DiffPatch", diffPatch), ("DiffPrerelease", diffPrerelease), ("DiffBuild", diffBuild)] := by decide
 
 theorem minPre_ok : minPre = [[48]] := by decide
 
